@@ -473,6 +473,46 @@ def proof_failure(rep, theorems_note):
     rep.violation("proof", txt, no_input=True)
 
 
+_LITERALS = None
+
+
+def source_literals():
+    """integer literals (decimal / hex, < 2^64) and short string literals that occur in the C sources of the tree under
+    test - a dictionary for the generators: a value or a count the code treats specially is spelled in the code
+    (sizes, increments, masks, magic prefixes), so boundary cases are derived from the current source, not only from
+    the specification.  returns {"ints": sorted list, "strings": sorted list}"""
+    global _LITERALS
+    if _LITERALS is not None:
+        return _LITERALS
+    ints, strs = set(), set()
+    for rel in REPO_SOURCES + ["third-party/tommyds/tommyhashlin.c", "third-party/tommyds/tommyhashlin.h", "third-party/tommyds/tommylist.c",
+                               "third-party/tommyds/tommychain.h", "third-party/tommyds/tommyhash.c"]:
+        base = os.path.join(REPO, rel)
+        cands = [base]
+        d = os.path.dirname(base)
+        if os.path.isdir(d):
+            cands += [os.path.join(d, f) for f in os.listdir(d) if f.endswith(".h")]
+        for p in cands:
+            try:
+                src = open(p, errors="replace").read()
+            except OSError:
+                continue
+            src = re.sub(r"/\*.*?\*/", " ", src, flags=re.S)
+            src = re.sub(r"//[^\n]*", " ", src)
+            for m in re.finditer(r'"((?:\\.|[^"\\\n]){1,24})"', src):
+                strs.add(m.group(1))
+            nostr = re.sub(r'"(?:\\.|[^"\\\n])*"', '""', src)
+            for m in re.finditer(r"(?<![A-Za-z0-9_.])(0[xX][0-9a-fA-F]+|[0-9]+)[uUlL]*(?![A-Za-z0-9_.])", nostr):
+                try:
+                    v = int(m.group(1), 0) if m.group(1).lower().startswith("0x") else int(m.group(1).lstrip("0") or "0")
+                except ValueError:
+                    continue
+                if v < 2 ** 64:
+                    ints.add(v)
+    _LITERALS = {"ints": sorted(ints), "strings": sorted(strs)}
+    return _LITERALS
+
+
 def rng(tag=""):
     return random.Random("%d/%s" % (seed(), tag))
 
